@@ -114,7 +114,8 @@ func knownContains(f Facts, text string, needle byte) (val, known bool) {
 		}
 	}
 	// IndexByte(text, c) >= 0  ==  !lt(IndexByte, 0) ; Index(...) != -1 ; == -1
-	for _, fn := range []string{fmt.Sprintf("strings.IndexByte(%s, %d)", text, needle), fmt.Sprintf("strings.Index(%s, %q)", text, string(needle)), fmt.Sprintf("strings.IndexRune(%s, %d)", text, needle)} {
+	for _, fn := range []string{fmt.Sprintf("strings.IndexByte(%s, %d)", text, needle), fmt.Sprintf("strings.Index(%s, %q)", text, string(needle)), fmt.Sprintf("strings.IndexRune(%s, %d)", text, needle),
+		fmt.Sprintf("bytes.IndexByte(%s, %d)", text, needle), fmt.Sprintf("bytes.Index(%s, %q)", text, string(needle)), fmt.Sprintf("bytes.IndexRune(%s, %d)", text, needle)} {
 		if v, ok := f["lt("+fn+",0)"]; ok {
 			return !v, true
 		}
@@ -129,8 +130,10 @@ func knownContains(f Facts, text string, needle byte) (val, known bool) {
 }
 
 func knownPrefix(f Facts, text, prefix string) (val, known bool) {
-	if v, ok := f[fmt.Sprintf("strings.HasPrefix(%s, %q)", text, prefix)]; ok {
-		return v, true
+	for _, pk := range []string{"strings", "bytes"} {
+		if v, ok := f[fmt.Sprintf("%s.HasPrefix(%s, %q)", pk, text, prefix)]; ok {
+			return v, true
+		}
 	}
 	// byte by byte: text[i] == prefix[i] for every i (and the text is long enough)
 	if v, ok := f[fmt.Sprintf("lt(len(%s),%d)", text, len(prefix))]; ok && v {
@@ -158,8 +161,10 @@ func knownPrefix(f Facts, text, prefix string) (val, known bool) {
 }
 
 func knownSuffix(f Facts, text, suffix string) (val, known bool) {
-	if v, ok := f[fmt.Sprintf("strings.HasSuffix(%s, %q)", text, suffix)]; ok {
-		return v, true
+	for _, pk := range []string{"strings", "bytes"} {
+		if v, ok := f[fmt.Sprintf("%s.HasSuffix(%s, %q)", pk, text, suffix)]; ok {
+			return v, true
+		}
 	}
 	if len(suffix) == 1 {
 		if v, ok := f[fmt.Sprintf("eq(%d,%s[(len(%s) - 1)])", suffix[0], text, text)]; ok {
@@ -1161,7 +1166,9 @@ func (c *Ctx) checkListPaths(o *obs, f *ssa.Function, sp listSpec) {
 			if n, isN := p.Ret[0].intVal(); isN {
 				okRes = int(n) == nRendered // a count of the items rendered serves the same purpose
 			}
-			t.note("the result tells whether nothing was rendered", okRes && p.Ret[1].Nil, "path %s returns %v after rendering %d item(s)", traceOf(p), p.Ret, nRendered)
+			// the error result is nil, literally or by the facts of this (success) path
+			errNil := p.Ret[1].Nil || F.Has(eqAtom(p.Ret[1].String(), "nil"), true)
+			t.note("the result tells whether nothing was rendered", okRes && errNil, "path %s returns %v after rendering %d item(s)", traceOf(p), p.Ret, nRendered)
 		}
 	}
 	t.require("nil / null items produce nothing; every other item is rendered, preceded by the separator iff an item was rendered before (and by a newline iff multi-line)")
@@ -3013,7 +3020,7 @@ func rulePXRegister(c *Ctx) []Obligation {
 		key, val := st.Args[0], st.Args[1]
 		name, alias := fieldOfTerm(val, nameF, nil), fieldOfTerm(val, aliasF, nil)
 		// first registration wins
-		miss := F.Has("empty("+storedName+")", true) || F.Has(`eq("_",`+storedName+`)`, true)
+		miss := F.Has("empty("+storedName+")", true) || F.Has(`eq("_",`+storedName+`)`, true) || F.Has("has("+imp+",p0)", false)
 		t.note("an entry is stored only after a miss on the import table (first registration wins)", miss, "path %s stores although the path may already be registered (facts %s): a later hint would rename an import already used", traceOf(p), F)
 		// the "C" case
 		if isC[1] && isC[0] {
